@@ -1,6 +1,7 @@
 (** C16 — Issued JWTs verify against the published key set and carry the system
-    claims.  Property theorems only; proofs are in C16/Proofs.v, C16/LocksProofs.v
-    and C16/ConcProofs.v (+ ConcExamples.v).
+    claims.  Property theorems only; proofs are in C16/Proofs.v, C16/LocksProofs.v,
+    C16/ConcProofs.v, C16/ConcWindow.v (C16_conc_hit_within_window), C16/ConcGenProofs.v over C16/ConcGen.v and
+    C16/ConcSkel.v (C16_fine_...), examples in C16/ConcExamples.v.
 
     Vocabulary (C16/Model.v = the Go code as it is, C16/Spec.v = the specification):
       [load cfg_kid file]          jwtSigner.load up to the swap: Ok new-fields | Err | Panic
@@ -107,7 +108,7 @@ Print Assumptions C16_jwks_public_only.
     or any rule-level variant of either — WITH ANY LIST OF KEY-STORE RELOADS LANDING BETWEEN
     Execute's cache lookup and its signing (Execute enters the signer's lock twice) —, a
     reload, a JWKS request, time passing for the cache.  [run fx_all] is the tree as it is
-    (with the repairs of C16-F1, fix: commit d9caf75, and C16-F2, fixes/C16-F2.diff).
+    (with the repairs of C16-F1, fix: commit d9caf75, and C16-F2, fix: commit 186d696 (= fixes/C16-F2.diff)).
 
     Every observation of every run meets the full specification of the finalizer
     ([run_ok]: typ JWT, custom claims, reuse only with cache and ttl > 5s, exact JWKS
@@ -152,7 +153,7 @@ Theorem C16_F1_pinned_refuted :
 Proof. exact F1_refuted. Qed.
 Print Assumptions C16_F1_pinned_refuted.
 
-(** C16-F2 as it is without fixes/C16-F2.diff: the store is replaced by B between an
+(** C16-F2 as it was before fix: commit 186d696 (model variant fx_F1_only): the store is replaced by B between an
     Execute's cache lookup (under A) and its signing; the B-signed token is filed under
     A's cache key; after the roll-back to A the next Execute hands out the B-token, whose
     key is not published *)
@@ -464,12 +465,15 @@ Print Assumptions C16_fine_nonvacuous.
 
 (** which programs pass: those of the tree as it is, and e.g. ones that read the key before the JWK or assign
     the published set first; not a Sign section without the key, not a write section that leaves a field out;
-    a Sign method that is not ONE section has no programs at all *)
+    the lock skeleton of the tree as it is ([skeleton_now]; re-extracted and re-checked on every run) satisfies the
+    hypothesis [wf_skeleton] of C16_consistent_pair / C16_sign_sees_one_load; a Sign method that is not ONE section
+    has no programs at all *)
 Theorem C16_fine_programs :
   progs_ok progs_now = true /\ progs_ok progs_alt = true /\
   progs_ok {| p_hash := [FJwk]; p_sign := [FJwk]; p_keys := [FPub]; p_load := [FJwk; FKey; FPub] |} = false /\
   progs_ok {| p_hash := [FJwk]; p_sign := [FJwk; FKey]; p_keys := [FPub]; p_load := [FJwk; FKey] |} = false /\
   programs skeleton_now xs_fixed = Some progs_now /\
+  wf_skeleton skeleton_now = true /\ has_roles skeleton_now = true /\
   programs [("load", [ELock; EDeferUnlock; EWrite FJwk; EWrite FKey; EWrite FPub; ERet]); ("Hash", [ERLock; ERead FJwk; ERUnlock]);
             ("signWithHash", [ERLock; ERead FJwk; ERUnlock; ERLock; ERead FKey; ERUnlock; ERet]);
             ("Keys", [ERLock; EDeferRUnlock; ERead FPub; ERet])] xs_fixed = None.
